@@ -85,6 +85,16 @@ def mutators():
         m.derived_param_list = [("dd", "b*g")]
         sh.derived.append(("dd", V("b") * V("g")))
     M["add_derived_only"] = add_derived_only
+
+    # an existing derived parameter defined AGAIN under the same name (the later definition replaces the earlier one);
+    # on a model that does not have it yet this first declares it and an event that uses it
+    def redefine_derived(m, sh):
+        if not any(nm == "dd" for nm, _ in sh.derived):
+            add_derived(m, sh)
+            return
+        m.derived_param_list = [("dd", "b+g")]
+        sh.derived = [(nm, e) if nm != "dd" else ("dd", V("b") + V("g")) for nm, e in sh.derived]
+    M["redefine_derived"] = redefine_derived
     return M
 
 
@@ -206,7 +216,7 @@ def histories(tier):
             if tier != "quick":
                 H.append((tuple(EVALS), (mu,), (), tuple(EVALS), True))
     # two mutators that declare the same new name cannot be combined in one history
-    clash = [{"add_param+event", "add_param_only"}, {"add_derived+event", "add_derived_only"}]
+    clash = [{"add_param+event", "add_param_only"}, {"add_derived+event", "add_derived_only"}, {"add_derived+event", "redefine_derived"}, {"add_derived_only", "redefine_derived"}]
     pairs = [(a, b) for a in ms for b in ms if a != b and {a, b} not in clash]
     if tier == "quick":
         pairs = pairs[::5]
@@ -221,6 +231,10 @@ def histories(tier):
         for mu in (ms if tier != "quick" else ["add_transition", "add_birth", "add_ode", "add_param+event", "add_derived+event", "parameters="]):
             H.append(((f,), (mu,), (), (f, "ode"), False, "copy"))
             H.append(((), (mu,), (), ("ode", f), False, "copy"))
+    for f in (EVALS if tier != "quick" else EVALS[::2]):
+        for a in ("add_derived+event", "add_derived_only"):
+            H.append(((f,), (a, "redefine_derived"), (f,), (f, "ode", f)))
+            H.append(((), (a, "redefine_derived"), ("ode", f), ("ode", f)))
     return H
 
 
